@@ -46,6 +46,30 @@ pub fn vbf_from(t: &mut Tape, salt: u32) -> ValueBlindingFactor {
     ValueBlindingFactor::from_slice(&fresh_scalar(t, salt ^ 0x8000_0000)).unwrap_or_else(|_| ValueBlindingFactor::zero())
 }
 
+/// asset and token id of an input's issuance by the harness's own derivation (C11 reference), so that
+/// the balanced-transaction generator does not depend on `TxIn::issuance_ids`
+pub fn ref_issuance_ids(i: &TxIn) -> (AssetId, AssetId) {
+    use crate::refimpl::sha256 as r;
+    use elements::hashes::Hash as _;
+    let word = |n: u8| {
+        let mut a = [0u8; 32];
+        a[0] = n;
+        a
+    };
+    let entropy = if i.asset_issuance.asset_blinding_nonce == elements::secp256k1_zkp::ZERO_TWEAK {
+        let mut b = i.previous_output.txid.to_byte_array().to_vec();
+        b.extend_from_slice(&i.previous_output.vout.to_le_bytes());
+        r::fast_merkle_root(&[r::sha256d(&b), i.asset_issuance.asset_entropy])
+    } else {
+        i.asset_issuance.asset_entropy
+    };
+    let blinded = matches!(i.asset_issuance.amount, Value::Confidential(_));
+    (
+        AssetId::from_byte_array(r::fast_merkle_root(&[entropy, word(0)])),
+        AssetId::from_byte_array(r::fast_merkle_root(&[entropy, word(if blinded { 2 } else { 1 })])),
+    )
+}
+
 /// value magnitudes from 1 up to 2^60, edge-biased
 pub fn gen_amount(t: &mut Tape) -> u64 {
     match t.below(8) {
@@ -153,17 +177,23 @@ pub fn gen_ct_case(t: &mut Tape, allow_unmarked: bool) -> CtCase {
         match t.below(6) {
             0 => {
                 has_issuance = true;
-                let amount = gen_amount(t);
-                let keys = if t.bool() { Some(gen_amount(t)) } else { None };
+                // asset only, asset + tokens, or tokens only (null amount)
+                let (amount, keys) = match t.below(3) {
+                    0 => (Some(gen_amount(t)), None),
+                    1 => (Some(gen_amount(t)), Some(gen_amount(t))),
+                    _ => (None, Some(gen_amount(t))),
+                };
                 txin.asset_issuance = AssetIssuance {
                     asset_blinding_nonce: elements::secp256k1_zkp::ZERO_TWEAK,
                     asset_entropy: t.arr32(),
-                    amount: Value::Explicit(amount),
+                    amount: amount.map_or(Value::Null, Value::Explicit),
                     inflation_keys: keys.map_or(Value::Null, Value::Explicit),
                 };
-                let (asset_id, token_id) = txin.issuance_ids();
-                *totals.entry(asset_id).or_insert(0) += u128::from(amount);
-                secrets.push(TxOutSecrets::new(asset_id, AssetBlindingFactor::zero(), amount, ValueBlindingFactor::zero()));
+                let (asset_id, token_id) = ref_issuance_ids(&txin);
+                if let Some(amount) = amount {
+                    *totals.entry(asset_id).or_insert(0) += u128::from(amount);
+                    secrets.push(TxOutSecrets::new(asset_id, AssetBlindingFactor::zero(), amount, ValueBlindingFactor::zero()));
+                }
                 if let Some(k) = keys {
                     *totals.entry(token_id).or_insert(0) += u128::from(k);
                     secrets.push(TxOutSecrets::new(token_id, AssetBlindingFactor::zero(), k, ValueBlindingFactor::zero()));
@@ -178,7 +208,7 @@ pub fn gen_ct_case(t: &mut Tape, allow_unmarked: bool) -> CtCase {
                     amount: Value::Explicit(amount),
                     inflation_keys: Value::Null,
                 };
-                let (asset_id, _) = txin.issuance_ids();
+                let (asset_id, _) = ref_issuance_ids(&txin);
                 *totals.entry(asset_id).or_insert(0) += u128::from(amount);
                 secrets.push(TxOutSecrets::new(asset_id, AssetBlindingFactor::zero(), amount, ValueBlindingFactor::zero()));
             }
